@@ -232,6 +232,32 @@ Theorem C07_likelihood_bin_without_events s b :
              (0 < b -> likelihood_poisson ROps 0 0 b < 1)).
 Proof. exact (conj (log_likelihood_no_events s b) (conj (likelihood_no_events s b) (binned_no_signal_no_events_bin b))). Qed.
 Print Assumptions C07_likelihood_bin_without_events.
+(** the same clause for requests made one after the other in one process (likelihood scans): [lik_session] answers a list of single-bin
+    and binned requests in order.  Whatever was asked before a request — any number of requests of either kind, in or out of the
+    property's ranges, e.g. the first point of a signal-strength scan with total expectation 0 — and whatever follows, its answer is
+    the answer the request gets alone; two histories give the same answer; single-bin requests never end the session *)
+Theorem C07_likelihood_session_history_independent pre pre' post post' (q : lik_req) l l' :
+  lik_session ROps (pre ++ q :: post) = Ok l -> lik_session ROps (pre' ++ q :: post') = Ok l' ->
+  (exists a, nth_error l (length pre) = Some a /\ lik_answer ROps q = Ok a) /\
+  nth_error l (length pre) = nth_error l' (length pre').
+Proof.
+  exact (fun H H' => conj (lik_session_answer ROps pre q post l H)
+                          (proj1 (lik_session_history_independent ROps pre pre' post post' q l l' H H'))).
+Qed.
+Print Assumptions C07_likelihood_session_history_independent.
+(** and for a single-bin request with s + b > 0 anywhere in a session the answer is (ln PMF(s+b; n), PMF(s+b; n)) *)
+Theorem C07_likelihood_session_in_range pre post s (n : nat) b l : 0 < s + b ->
+  lik_session ROps (pre ++ ReqLik s (Z.of_nat n) b :: post) = Ok l ->
+  exists ll lk, nth_error l (length pre) = Some (ll, lk) /\
+    Ok lk = pmf_poisson ROps (s + b) (Z.of_nat n) /\ ll = ln (poisv (s + b) n) /\ ll = ln lk.
+Proof. exact (lik_session_in_range pre post s n b l). Qed.
+Print Assumptions C07_likelihood_session_in_range.
+Theorem C07_likelihood_session_scalar_requests (cs : list (R * Z * R)) :
+  lik_session ROps (map (fun c => ReqLik (fst (fst c)) (snd (fst c)) (snd c)) cs) =
+  Ok (map (fun c => (log_likelihood_poisson ROps (fst (fst c)) (snd (fst c)) (snd c),
+                     likelihood_poisson ROps (fst (fst c)) (snd (fst c)) (snd c))) cs).
+Proof. exact (lik_session_scalar ROps cs). Qed.
+Print Assumptions C07_likelihood_session_scalar_requests.
 
 (** ** Chi-square (dof >= 1e-6; smaller dof is the dof-0 convention) *)
 Theorem C07_chi2_pdf gammaLn x dof :
